@@ -802,6 +802,7 @@ pub fn families(nmax: usize) -> Vec<(String, Vec<Op>)> {
         out.push((format!("big: one stage of {} groups; barrier; writer", n), (0..n).map(|i| s(nm(i), &[0], &[], 3, vec![])).chain([Op::Barrier, s("w".into(), &[], &[0], 3, vec![])]).collect()));
         out.push((format!("big: dependency chain of {}", n), (0..n).map(|i| s(nm(i), &[], &[], 3, if i == 0 { vec![] } else { vec![nm(i - 1)] })).collect()));
         out.push((format!("big: sink depending on {} systems", n), (0..n).map(|i| s(nm(i), &[], &[], 3, vec![])).chain([s("sink".into(), &[], &[], 3, (0..n).map(nm).collect())]).collect()));
+        out.push((format!("big: {} barriers", n), (0..n).flat_map(|i| vec![free(&nm(i)), Op::Barrier]).chain([free("x"), free("y"), Op::Barrier, free("z")]).collect()));
         out.push((format!("big: {} thread-local systems", n), (0..n).map(|_| Op::Tl(SysSpec { name: String::new(), reads: vec![], writes: vec![], time: 3, deps: vec![] })).chain([free("x")]).collect()));
     }
     for n in 1..=nmax {
@@ -823,6 +824,28 @@ pub fn families(nmax: usize) -> Vec<(String, Vec<Op>)> {
             format!("two-lanes({})", n),
             (0..n).map(|i| if i % 2 == 0 { s(nm(i), &[], &[0], 1 + (i % 5) as u8, vec![]) } else { s(nm(i), &[], &[1], 1 + ((i / 2) % 5) as u8, vec![]) }).collect(),
         ));
+        // n effective barriers: n resource-less systems each followed by a barrier, then two free systems, a barrier
+        // and one more; the same with every barrier doubled, and with a leading barrier
+        {
+            let free = |name: String| s(name, &[], &[], 3, vec![]);
+            let mut v: Vec<Op> = Vec::new();
+            let mut v2: Vec<Op> = vec![Op::Barrier];
+            for i in 0..n {
+                v.push(free(nm(i)));
+                v.push(Op::Barrier);
+                v2.push(free(nm(i)));
+                v2.push(Op::Barrier);
+                v2.push(Op::Barrier);
+            }
+            for w in [&mut v, &mut v2] {
+                w.push(free("x".into()));
+                w.push(free("y".into()));
+                w.push(Op::Barrier);
+                w.push(free("z".into()));
+            }
+            out.push((format!("barriers({})", n), v));
+            out.push((format!("doubled-barriers({})", n), v2));
+        }
         if n <= 8 {
             // fan-in: n sources, one sink depending on all of them
             let mut v: Vec<Op> = (0..n).map(|i| s(nm(i), &[], &[], 3, vec![])).collect();
@@ -852,6 +875,15 @@ pub fn families(nmax: usize) -> Vec<(String, Vec<Op>)> {
                 format!("batch-wide-inner({})", n),
                 vec![Op::Batch(BatchSpec { name: "b".into(), deps: vec![], ctrl: CtrlData::ReadA, times: 2, multi: false, fetch_data: false, inner: (0..n).map(|i| s(nm(i), &[], &[], 3, vec![])).collect() })],
             ));
+            // the ballast shapes as the INNER plan of a batch (the inner builder fills its groups like any other), and a
+            // batch registered behind them
+            {
+                let ballast = |v: Vec<Op>| -> Vec<Op> { std::iter::once(s("ballast".into(), &[], &[1], 5, vec![])).chain(v).collect() };
+                let bt = |inner: Vec<Op>| Op::Batch(BatchSpec { name: "b".into(), deps: vec![], ctrl: CtrlData::Unit, times: 1, multi: false, fetch_data: false, inner });
+                out.push((format!("batch-inner-ballast+writers({})", n), vec![bt(ballast((0..n).map(|i| s(nm(i), &[], &[0], 1, vec![])).collect()))]));
+                out.push((format!("batch-inner-ballast+dep-chain({})", n), vec![bt(ballast((0..n).map(|i| s(nm(i), &[], &[], 1, if i == 0 { vec![] } else { vec![nm(i - 1)] })).collect()))]));
+                out.push((format!("ballast+writers({})+batch-writing-the-same", n), ballast((0..n).map(|i| s(nm(i), &[], &[0], 1, vec![])).chain(std::iter::once(bt(vec![s("x".into(), &[], &[0], 1, vec![])]))).collect())));
+            }
             out.push((
                 format!("batch-of-thread-local({})", n),
                 vec![Op::Batch(BatchSpec { name: "b".into(), deps: vec![], ctrl: CtrlData::Unit, times: 1, multi: false, fetch_data: false, inner: (0..n).map(|_| tl(&[])).collect() })],
@@ -1042,6 +1074,7 @@ fn map_names(ops: &[Op], f: &dyn Fn(&str) -> String) -> Vec<Op> {
         .map(|o| match o {
             Op::Sys(s) => Op::Sys(SysSpec { name: if s.name.is_empty() { String::new() } else { f(&s.name) }, deps: s.deps.iter().map(|d| f(d)).collect(), ..s.clone() }),
             Op::Batch(b) => Op::Batch(BatchSpec { name: if b.name.is_empty() { String::new() } else { f(&b.name) }, deps: b.deps.iter().map(|d| f(d)).collect(), inner: b.inner.clone(), ..b.clone() }),
+            Op::Static(st) => Op::Static(StaticSpec { name: if st.name.is_empty() { String::new() } else { f(&st.name) }, deps: st.deps.iter().map(|d| f(d)).collect(), ..st.clone() }),
             x => x.clone(),
         })
         .collect()
@@ -1105,6 +1138,47 @@ pub fn c19_check(ops: &[Op], l: &crate::hsys::Layout, nmaps: usize) -> (u64, Vec
     };
     // (iv) a second build in the same process
     cmp("second build of the same sequence", "plan-not-reproducible", ops, &idm, &mut n, &mut vs);
+    // (ix) a second builder alive at the same time, filled in alternation (with the same calls; with the calls in
+    //      reverse order and without their dependencies): a builder's plan is a function of its own calls
+    {
+        let strip = |o: &Op| -> Op {
+            match o {
+                Op::Sys(x) => Op::Sys(SysSpec { deps: vec![], ..x.clone() }),
+                Op::Tl(x) => Op::Tl(SysSpec { deps: vec![], ..x.clone() }),
+                Op::Batch(b) => Op::Batch(BatchSpec { deps: vec![], ..b.clone() }),
+                x => x.clone(),
+            }
+        };
+        let rev: Vec<Op> = ops.iter().rev().map(strip).collect();
+        for (what, other) in [("the same calls", ops.to_vec()), ("the calls in reverse order, dependencies dropped", rev)] {
+            n += 1;
+            match crate::obs::layout_interleaved(ops, &other, &idm) {
+                Ok(l2) => {
+                    if l2 != *l {
+                        vs.push(("plan-depends-on-another-builder".to_string(), format!("registered in alternation with a second builder that receives {}: layout becomes {}", what, l2.short())));
+                    }
+                }
+                Err(e) => vs.push(("transformed-plan-rejected".to_string(), format!("registered in alternation with a second builder ({}): {}", what, e))),
+            }
+        }
+    }
+    // (x) the thread's history: the same calls on a freshly started thread (on which nothing has been built yet) give
+    //     the same plan as here, where thousands of other plans have been built before (statically typed plans only:
+    //     that is where per-thread / per-process memo tables of the library would sit)
+    if ops.iter().any(|o| matches!(o, Op::Static(_))) {
+        n += 1;
+        let ops2 = ops.to_vec();
+        let idm2 = idm.clone();
+        match std::thread::spawn(move || layout_of(&ops2, &idm2)).join() {
+            Ok(Ok(l2)) => {
+                if l2 != *l {
+                    vs.push(("plan-depends-on-what-was-built-before".to_string(), format!("built on a freshly started thread the layout is {}", l2.short())));
+                }
+            }
+            Ok(Err(e)) => vs.push(("transformed-plan-rejected".to_string(), format!("built on a freshly started thread: {}", e))),
+            Err(_) => vs.push(("transformed-plan-rejected".to_string(), "building on a freshly started thread panicked".to_string())),
+        }
+    }
     // (vii) the size of the default pool / the number of cores the building thread sees
     for nthreads in [1usize, 2, 3, 64] {
         rayon::verif::set_default_threads(Some(nthreads));
@@ -1218,7 +1292,11 @@ pub fn c19_check(ops: &[Op], l: &crate::hsys::Layout, nmaps: usize) -> (u64, Vec
     fn has_ctrl_data(ops: &[Op]) -> bool {
         ops.iter().any(|o| matches!(o, Op::Batch(b) if b.ctrl != CtrlData::Unit || has_ctrl_data(&b.inner)))
     }
-    let fixed = has_ctrl_data(ops);
+    // (statically typed systems name A and C by their Rust types as well)
+    fn has_static(ops: &[Op]) -> bool {
+        ops.iter().any(|o| matches!(o, Op::Static(_)) || matches!(o, Op::Batch(b) if has_static(&b.inner)))
+    }
+    let fixed = has_ctrl_data(ops) || has_static(ops);
     // with A and C pinned there are only 24 relabellings: all of them, in both tiers
     let maps: Vec<Vec<u8>> = if fixed { resmaps(usize::MAX).into_iter().filter(|m| m[0] == 0 && m[2] == 2).collect() } else { resmaps(nmaps) };
     for m in maps.iter().skip(1) {
